@@ -493,7 +493,7 @@ impl<Service: service::Service, Resource: ServiceResource> Receiver<Service, Res
                     let connection = match connection_storage.get(*connection_key) {
                         Some(connection) => connection,
                         None => {
-                            index_and_key = Some((n, *connection_key));
+                            index_and_key = Some((indices_to_skip + n, *connection_key));
                             break;
                         }
                     };
@@ -513,7 +513,7 @@ impl<Service: service::Service, Resource: ServiceResource> Receiver<Service, Res
                             Self::receiver_channels_have_data_or_borrows(receiver);
 
                         if !has_borrows {
-                            index_and_key = Some((n, *connection_key));
+                            index_and_key = Some((indices_to_skip + n, *connection_key));
                             break;
                         }
                     }
